@@ -4,6 +4,7 @@ package encoding
 
 import (
 	"bytes"
+	"io"
 	"math"
 
 	"github.com/lugu/qiloop/internal/zzverif/sym"
@@ -29,6 +30,29 @@ func zzCat(parts ...[]byte) []byte {
 		out = append(out, p...)
 	}
 	return out
+}
+
+// zzChunkReader returns at most chunk bytes per Read.
+type zzChunkReader struct {
+	data  []byte
+	pos   int
+	chunk int
+}
+
+func (c *zzChunkReader) Read(p []byte) (int, error) {
+	if c.pos >= len(c.data) {
+		return 0, io.EOF
+	}
+	n := c.chunk
+	if n > len(p) {
+		n = len(p)
+	}
+	if n > len(c.data)-c.pos {
+		n = len(c.data) - c.pos
+	}
+	copy(p, c.data[c.pos:c.pos+n])
+	c.pos += n
+	return n, nil
 }
 
 type zzSmall struct {
@@ -69,6 +93,14 @@ func zzCheck(label, sig string, v interface{}, spec []byte, fresh interface{}, e
 		if err == nil {
 			sym.Assert(r.Len() == 1, label+"/reader-consumes-exactly")
 			sym.Assert(sym.EqBytes(got, spec), label+"/reader-returns-unchanged")
+		}
+		// the same bytes arriving in small chunks (a stream, not a buffer)
+		cr := &zzChunkReader{data: append(append([]byte{}, spec...), 0x77), chunk: 1 + sym.Choose("chunk", 3)}
+		got, err = reader.Read(cr)
+		sym.Assert(err == nil, label+"/chunked-reader-accepts")
+		if err == nil {
+			sym.Assert(len(cr.data)-cr.pos == 1, label+"/chunked-reader-consumes-exactly")
+			sym.Assert(sym.EqBytes(got, spec), label+"/chunked-reader-returns-unchanged")
 		}
 	}
 	err = NewDecoder(nil, bytes.NewReader(spec)).Decode(fresh)
@@ -136,7 +168,18 @@ func C03Small() {
 
 // C03Containers: lists, nested lists, maps, structs with lists and nested structs.
 func C03Containers() {
-	switch sym.Choose("shape", 4) {
+	switch sym.Choose("shape", 5) {
+	case 4:
+		// a list of maps: every element must get its own map
+		v := []map[string]uint32{{"a": sym.U32("x")}, {"b": sym.U32("y")}}
+		spec := zzCat(zzLE32(2), zzLE32(1), zzStr("a"), zzLE32(v[0]["a"]), zzLE32(1), zzStr("b"), zzLE32(v[1]["b"]))
+		var back []map[string]uint32
+		zzCheck("[]map[string]uint32", "[{sI}]", v, spec, &back, func() bool {
+			if !(len(back) == 2 && len(back[0]) == 1 && len(back[1]) == 1) {
+				return false
+			}
+			return sym.And(back[0]["a"] == v[0]["a"], back[1]["b"] == v[1]["b"])
+		})
 	case 0:
 		n := sym.Choose("n", 3)
 		v := make([]int32, n)
@@ -157,11 +200,15 @@ func C03Containers() {
 			return ok
 		})
 	case 1:
-		v := [][]uint16{{sym.U16("a"), sym.U16("b")}, {}}
-		spec := zzCat(zzLE32(2), zzLE32(2), zzLE16(v[0][0]), zzLE16(v[0][1]), zzLE32(0))
+		v := [][]uint16{{sym.U16("a"), sym.U16("b")}, {sym.U16("c")}, {sym.U16("d"), sym.U16("e")}}
+		spec := zzCat(zzLE32(3), zzLE32(2), zzLE16(v[0][0]), zzLE16(v[0][1]), zzLE32(1), zzLE16(v[1][0]), zzLE32(2), zzLE16(v[2][0]), zzLE16(v[2][1]))
 		var back [][]uint16
 		zzCheck("[][]uint16", "[[W]]", v, spec, &back, func() bool {
-			return len(back) == 2 && len(back[0]) == 2 && len(back[1]) == 0 && sym.And(back[0][0] == v[0][0], back[0][1] == v[0][1])
+			if !(len(back) == 3 && len(back[0]) == 2 && len(back[1]) == 1 && len(back[2]) == 2) {
+				return false
+			}
+			return sym.And(sym.And(back[0][0] == v[0][0], back[0][1] == v[0][1]),
+				sym.And(back[1][0] == v[1][0], sym.And(back[2][0] == v[2][0], back[2][1] == v[2][1])))
 		})
 	case 2:
 		k := sym.Str("k", 1)
